@@ -156,6 +156,17 @@ class Run:
         if real.startswith("ERR "):
             self.stats["real_error:" + real[4:]] += 1
 
+    def digest(self) -> str:
+        """fingerprint of the generated workload (operations sent to the model and distinct probe cases): equal
+        seeds must give equal digests, whatever the interpreter's hash seed"""
+        h = hashlib.sha1()
+        for o in self.ops:
+            h.update(o[0].encode("utf-8", "backslashreplace"))
+            h.update(b"\n")
+        for d in sorted(self.distinct):
+            h.update(d.encode())
+        return h.hexdigest()[:16]
+
     def case(self, key, nontrivial=True):
         self.stats["evaluations"] += 1
         if nontrivial:
@@ -255,7 +266,7 @@ def write_evidence(run: Run, level: str, extra_cov: dict, violations: int):
         "rule": extra_cov.pop("rule", ""),
         "samples": run.samples[:8] or ["<none>"],
         "correspondence": {
-            "ops": len(run.ops), "agree": run.stats.get("corr_agree", 0),
+            "ops": len(run.ops), "workload_digest": run.digest(), "agree": run.stats.get("corr_agree", 0),
             "agree_observable_only": run.stats.get("corr_agree_observable", 0),
             "disagree": run.stats.get("corr_disagree", 0), "notes": run.corr_notes[:10],
         },
